@@ -257,11 +257,18 @@ func childMain() {
 		visit("op.after")
 	}
 	if w.Par == gen+1 {
-		// the leading Init alone, then three writers on disjoint id sets
+		// everything up to the first Init alone, then three writers on disjoint id sets
 		var wg sync.WaitGroup
 		parts := make([][]int, 3)
+		firstInit := 0
 		for i, op := range w.Gens[gen] {
-			if i == 0 {
+			if op.K == "init" {
+				firstInit = i
+				break
+			}
+		}
+		for i, op := range w.Gens[gen] {
+			if i <= firstInit {
 				runOp(i, op)
 				continue
 			}
